@@ -15,7 +15,8 @@ From Coq Require Import String ZArith QArith Bool Arith List Permutation.
 From GT Require Import Base.UTree Spec.Obs Spec.GenShape Spec.Counting Model.Reroot Model.Rand Model.Rand2
      Model.TreeGen Model.Sampling
      Proofs.SamplingBase Proofs.SamplingPerm Proofs.SamplingRepl Proofs.SamplingRes Proofs.SamplingShuffle
-     Proofs.SamplingCode Proofs.SamplingRefute Proofs.TreeGenUnif Proofs.TreeGenUnif2.
+     Proofs.SamplingCode Proofs.SamplingRefute Proofs.TreeGenUnif Proofs.TreeGenUnif2
+     Proofs.SamplingShuffle2 Proofs.SamplingEdge.
 Import ListNotations.
 Local Close Scope Q_scope.
 
@@ -201,3 +202,53 @@ Theorem C20_uniform_rooted_refuted :
               ~ In key (uniform_keys 3 true).
 Proof. exact uniform_rooted_refuted. Qed.
 Print Assumptions C20_uniform_rooted_refuted.
+
+(** * ShuffleTips end to end: the new tree is the old one up to tip names, and every assignment
+    of the n names to the n tips (Tips() order) is produced by exactly one of the n! choice vectors *)
+Theorem C20_shuffle_same_tree : forall t cs, erase_tips (shuffle_tips t cs) = erase_tips t.
+Proof. exact shuffle_tips_same_tree. Qed.
+Print Assumptions C20_shuffle_same_tree.
+
+Theorem C20_shuffle_assignment :
+  forall t q, wf t = true -> 2 <= degree t -> NoDup (all_tip_names t) -> Permutation q (all_tip_names t) ->
+    exists cs, in_bounds cs (shuffle_bounds t) /\ tip_names (shuffle_tips t cs) = q /\
+               forall cs', in_bounds cs' (shuffle_bounds t) -> tip_names (shuffle_tips t cs') = q -> cs' = cs.
+Proof. exact shuffle_tips_assignment_wf. Qed.
+Print Assumptions C20_shuffle_assignment.
+
+Theorem C20_shuffle_count :
+  forall t q, wf t = true -> 2 <= degree t -> NoDup (all_tip_names t) -> Permutation q (all_tip_names t) ->
+    count_where (fun cs => if list_eq_dec String.string_dec (tip_names (shuffle_tips t cs)) q then true else false)
+                (all_choices (shuffle_bounds t)) = 1.
+Proof. exact shuffle_tips_count_wf. Qed.
+Print Assumptions C20_shuffle_count.
+
+(** * degenerate sizes of the selection loops *)
+(** -n 0: one draw per item is consumed, nothing is selected *)
+Theorem C20_reservoir_k0 :
+  forall (A : Type) bnd (xs : list A) cs,
+    in_bounds cs (reservoir_bounds bnd 0 (length xs)) -> reservoir bnd 0 xs cs = Some [].
+Proof. exact @reservoir_k0. Qed.
+Print Assumptions C20_reservoir_k0.
+
+(** k >= n: no draw, every item is selected, in input order *)
+Theorem C20_reservoir_all :
+  forall (A : Type) bnd k (xs : list A), length xs <= k ->
+    reservoir_bounds bnd k (length xs) = [] /\ reservoir bnd k xs [] = Some (map Some xs).
+Proof. exact @reservoir_all. Qed.
+Print Assumptions C20_reservoir_all.
+
+Theorem C20_sample_replace_k0 :
+  forall (A : Type) (xs : list A), replace_bounds 0 (length xs) = [] /\ sample_replace 0 xs [] = Some [].
+Proof. exact @sample_replace_k0. Qed.
+Print Assumptions C20_sample_replace_k0.
+
+(** no item: the empty selection without replacement; with replacement the k slots would keep a
+    nil tree -- the command never gets there, it refuses an empty input (EOF) before the loop *)
+Theorem C20_reservoir_no_item : forall (A : Type) bnd k, @reservoir A bnd k [] [] = Some [].
+Proof. exact @reservoir_no_item. Qed.
+Print Assumptions C20_reservoir_no_item.
+
+Theorem C20_sample_replace_no_item : forall (A : Type) k, @sample_replace A k [] [] = Some (repeat None k).
+Proof. exact @sample_replace_no_item. Qed.
+Print Assumptions C20_sample_replace_no_item.
